@@ -6,6 +6,7 @@ package main
 //
 //	startup=<part>[+<part>...]   part = once:N | const:OPS:MS | step:FROM:TO:STEP:MS   (real schedule constructors)
 //	rps=<part>[+...] [perinst=1] ammo=<N, 0 = unlimited> resp=<ms> [cancel=<ms>] [failgun=<j>: the j-th instance gun (0-based) cannot be created]
+//	[gundelay=<ms>: every instance gun takes that long to create]
 //
 // Observation (instants in ns since just before Engine.Run was called, monotonic clock):
 //
@@ -217,6 +218,7 @@ func run(input string) string {
 	}
 	resp := time.Duration(atoi("resp", 0)) * time.Millisecond
 	failgun := atoi("failgun", -1)
+	gundelay := time.Duration(atoi("gundelay", 0)) * time.Millisecond
 	var gunCalls int64 = -1 // the first NewGun call is the warm-up gun of the pool
 	var gunMu sync.Mutex
 	conf := engine.InstancePoolConfig{
@@ -233,6 +235,9 @@ func run(input string) string {
 				r.mu.Lock()
 				r.guns = append(r.guns, t)
 				r.mu.Unlock()
+			}
+			if n >= 0 && gundelay > 0 {
+				time.Sleep(gundelay) // a gun that takes time to create: the first instance is created synchronously by the start loop
 			}
 			if n >= 0 && n == failgun {
 				r.cut("fail")
@@ -472,6 +477,11 @@ func gen(r *rand.Rand, tier string) []string {
 		"startup=step:1:9:2:1000 rps=const:10:10000 ammo=0 resp=0 cancel=2500",
 		"startup=const:0:1000+once:2 rps=const:10:10000 ammo=0 resp=0 cancel=400",
 		"startup=step:0:4:2:1000+once:1 rps=const:10:10000 ammo=0 resp=20 cancel=1500",
+		// guns that take time to create: the synchronous creation of the first instance delays the loop; the tokens that became due
+		// meanwhile are started at once afterwards — unless the start was cut short meanwhile
+		"startup=once:3 rps=const:10:2000 ammo=0 resp=0 gundelay=300",
+		"startup=once:3 rps=const:10:10000 ammo=0 resp=0 gundelay=1000 cancel=500",
+		"startup=const:4:1000+once:2 rps=const:10:10000 ammo=0 resp=0 gundelay=900 cancel=400",
 		// a gun cannot be created: the first (synchronous) instance, a later one; in composites and instance_step
 		"startup=once:3 rps=const:10:1000 ammo=0 resp=0 failgun=0",
 		"startup=const:2:2000 rps=const:10:10000 ammo=0 resp=0 failgun=2",
